@@ -7,6 +7,7 @@ import impl_sym
 from framework import Case
 
 PROP = "C18"
+GENERATED = ['OpSemantics', 'ParserTables']  # generated files this check's tie depends on
 LEAN_MODULES = ["Properties.C18"]
 RULE = (
     "corpus; exhaustive expression trees with <=2 operator nodes over atoms {a, b, 2, 3} and operators + - * // ** Min Max ISqrt Group "
